@@ -1,6 +1,6 @@
 (* C04 - Factory-generated resources are per-context singletons of the requesting context. *)
 From Coq Require Import String List.
-From Asphalt Require Import Ctx.ResModel Ctx.ResProofs Ctx.ResInv Ctx.ResHist.
+From Asphalt Require Import Ctx.ResModel Ctx.ResProofs Ctx.ResInv Ctx.ResHist Gen.Gen_lookup.
 Import ListNotations.
 
 (* in every reachable state, for every context and every factory, the factory's body has been
@@ -58,3 +58,16 @@ Theorem C04_async_via_sync : forall x t name opt f,
   local_step (AGetNowait t name opt) x = (x, Err AsyncErr).
 Proof. exact async_via_sync. Qed.
 Print Assumptions C04_async_via_sync.
+
+(* get_resource_nowait / get_resource as read from the source on this run (the model's lookups are computed
+   from these): an existing resource first; a coroutine from the factory is rejected before anything is stored;
+   the product is stored under the factory's still-free types only, marked as generated (so that children do
+   not inherit it) and announced iff something was stored -- in BOTH lookups; the asynchronous one waits for
+   a generation of the same factory already in flight in this context and returns what the pair resolves to *)
+Theorem C04_lookups_in_source :
+  lk_existing_resource_first = true /\ nw_async_rejected_before_storing = true /\
+  nw_free_types_only = true /\ nw_marked_generated = true /\ nw_dispatch_iff_stored = true /\
+  as_inflight_guard = true /\ as_free_types_only = true /\ as_marked_generated = true /\
+  as_dispatch_iff_stored = true /\ as_returns_what_the_pair_resolves_to = true.
+Proof. exact lookup_source_shape. Qed.
+Print Assumptions C04_lookups_in_source.
